@@ -1616,13 +1616,14 @@ def sec_extras(ctx, rng, case):
         ctx.distinct(("store", repr(sorted(log.items()))), nontrivial=True)
 
 
+# (name, function, quick cases, thorough cases, time weight).  One of 14 quick shards needs ~18 s unloaded.
 SECTIONS = [
-    ("views", sec_views, 32000, 300000, 4.0),
-    ("combine", sec_combine, 16000, 150000, 1.5),
-    ("json", sec_json, 16000, 150000, 1.5),
-    ("digits", sec_digits, 40000, 400000, 1.0),
-    ("samplers", sec_samplers, 20000, 200000, 2.0),
-    ("real_samplers", sec_real_samplers, 10000, 100000, 3.0),
+    ("views", sec_views, 16000, 300000, 6.0),
+    ("combine", sec_combine, 8000, 150000, 2.0),
+    ("json", sec_json, 8000, 150000, 2.0),
+    ("digits", sec_digits, 20000, 400000, 1.0),
+    ("samplers", sec_samplers, 10000, 200000, 2.0),
+    ("real_samplers", sec_real_samplers, 5000, 100000, 2.5),
     ("zeros_rejections", sec_zeros_rejections, 28, 64, 0.1),
-    ("extras", sec_extras, 6000, 40000, 0.5),
+    ("extras", sec_extras, 3000, 40000, 0.5),
 ]
